@@ -32,10 +32,13 @@ open VncModel.Gen.C15
 structure Variant where
   clipFixed : Bool
   colourFixed : Bool
+  /-- SetEncodings that takes cursor-shape support away marks the cursor box for redraw
+  (fixes/C15-setenc-soft-cursor.diff); the original code does not -/
+  setencFixed : Bool := true
   deriving Repr, DecidableEq
 
-def Variant.fixed : Variant := ⟨true, true⟩
-def Variant.orig : Variant := ⟨false, false⟩
+def Variant.fixed : Variant := ⟨true, true, true⟩
+def Variant.orig : Variant := ⟨false, false, false⟩
 
 /-- rfbPixelFormat of the server (true colour) -/
 structure Format where
@@ -154,19 +157,22 @@ def richOf (v : Variant) (f : Format) (bpp : Nat) (c : Cursor) : Option (Array P
 def orByte (a : Array UInt8) (i : Nat) (b : UInt8) : Option (Array UInt8) :=
   if h : i < a.size then some (a.set i (a[i] ||| b) h) else none
 
+/-- one iteration of rfbMakeMaskForXCursor's inner loop: byte column `i = w-1-k` of row `j` -/
+def maskForXStep (w height : Nat) (src : Array UInt8) (j k : Nat) (m : Array UInt8) : Option (Array UInt8) :=
+  let i := w - 1 - k
+  (src[j * w + i]?).bind fun c0 =>
+  (if j > 0 then src[(j - 1) * w + i]? else some 0).bind fun c1 =>
+  (if j + 1 < height then src[(j + 1) * w + i]? else some 0).bind fun c2 =>
+  let c : UInt8 := c0 ||| c1 ||| c2
+  (if i > 0 && (c &&& 0x80) != 0 then orByte m (j * w + i - 1) 0x01 else some m).bind fun m1 =>
+  (if i + 1 < w && (c &&& 0x01) != 0 then orByte m1 (j * w + i + 1) 0x80 else some m1).bind fun m2 =>
+  orByte m2 (j * w + i) ((c <<< 1) ||| c ||| (c >>> 1))
+
 /-- rfbMakeMaskForXCursor -/
 def makeMaskForXCursor (width height : Nat) (src : Array UInt8) : Option (Array UInt8) :=
   let w := rowBytes width
-  forM? height (fun j m =>
-    forM? w (fun k m => do
-      let i := w - 1 - k
-      let c0 ← src[j * w + i]?
-      let c1 ← if j > 0 then src[(j - 1) * w + i]? else some 0
-      let c2 ← if j + 1 < height then src[(j + 1) * w + i]? else some 0
-      let c : UInt8 := c0 ||| c1 ||| c2
-      let m ← if i > 0 && (c &&& 0x80) != 0 then orByte m (j * w + i - 1) 0x01 else some m
-      let m ← if i + 1 < w && (c &&& 0x01) != 0 then orByte m (j * w + i + 1) 0x80 else some m
-      orByte m (j * w + i) ((c <<< 1) ||| c ||| (c >>> 1))) m) (Array.replicate (w * height) 0)
+  forM? height (fun j m => forM? w (fun k m => maskForXStep w height src j k m) m)
+    (Array.replicate (w * height) 0)
 
 /-- clear the padding bits of every bitmap row (what building a bitmap from a string yields) -/
 def clearPadding (width height : Nat) (bits : Array UInt8) : Array UInt8 :=
@@ -194,54 +200,70 @@ structure FsState where
   cur : Int
   res : Array UInt8
 
+/-- checked store into the error row -/
+def setErr (e : Array Int) (i : Nat) (x : Int) : Option (Array Int) :=
+  if h : i < e.size then some (e.set i x h) else none
+
+/-- one pixel `(i,j)` of rfbMakeMaskFromAlphaSource's Floyd–Steinberg loop -/
+def fsStep (width stride : Nat) (alpha : Array UInt8) (j i : Nat) (st : FsState) : Option FsState :=
+  (alpha[i + width * j]?).bind fun a =>
+  (st.err[i]?).bind fun e =>
+  let cur0 : Int := st.cur + (a.toNat : Int) + e
+  (if cur0 < 0x80 then some (cur0, st.res)
+   else (orByte st.res (i / 8 + j * stride) (UInt8.ofNat (0x100 >>> ((i % 8) + 1)))).map fun r => (cur0 - 0xff, r)).bind
+  fun (cur1, res) =>
+  let right := Int.tdiv cur1 16
+  let middle := Int.tdiv (cur1 * 5) 16
+  let left := Int.tdiv (cur1 * 3) 16
+  let cur2 := cur1 - (right + middle + left)
+  (setErr st.err i right).bind fun err1 =>
+  (if i > 0 then setErr err1 (i - 1) middle else some err1).bind fun err2 =>
+  (if i > 1 then setErr err2 (i - 2) left else some err2).bind fun err3 =>
+  some ⟨err3, cur2, res⟩
+
 /-- rfbMakeMaskFromAlphaSource (C `/` on `int` truncates towards zero: `Int.tdiv`) -/
 def makeMaskFromAlpha (width height : Nat) (alpha : Array UInt8) : Option (Array UInt8) :=
   let stride := rowBytes width
   let init : FsState := ⟨Array.replicate width 0, 0, Array.replicate (stride * height) 0⟩
-  (forM? height (fun j st =>
-    forM? width (fun i st => do
-      let a ← alpha[i + width * j]?
-      let e ← st.err[i]?
-      let cur0 : Int := st.cur + (a.toNat : Int) + e
-      let (cur1, res) ←
-        if cur0 < 0x80 then some (cur0, st.res)
-        else (orByte st.res (i / 8 + j * stride) (UInt8.ofNat (0x100 >>> ((i % 8) + 1)))).map fun r => (cur0 - 0xff, r)
-      let right := Int.tdiv cur1 16
-      let middle := Int.tdiv (cur1 * 5) 16
-      let left := Int.tdiv (cur1 * 3) 16
-      let cur2 := cur1 - (right + middle + left)
-      let err ← if h : i < st.err.size then some (st.err.set i right h) else none
-      let err ← if i > 0 then (if h : i - 1 < err.size then some (err.set (i - 1) middle h) else none) else some err
-      let err ← if i > 1 then (if h : i - 2 < err.size then some (err.set (i - 2) left h) else none) else some err
-      some ⟨err, cur2, res⟩) st) init).map (·.res)
+  (forM? height (fun j st => forM? width (fun i st => fsStep width stride alpha j i st) st) init).map (·.res)
 
 /-- channel value of a pixel: `((max << shift) & px) >> shift` -/
 def chan (max shift px : Nat) : Nat := ((max <<< shift) &&& px) >>> shift
+
+/-- "all zeros means we should interpolate to black+white ourselves" -/
+def xInterp (bpp : Nat) (c : Cursor) : Bool :=
+  c.backR == 0 && c.backG == 0 && c.backB == 0 && c.foreR == 0 && c.foreG == 0 && c.foreB == 0
+    && (bpp == 1 || bpp == 2 || bpp == 4)
+
+/-- `background` of rfbMakeXCursorFromRichCursor as the `bpp` bytes that are compared -/
+def xBackground (f : Format) (bpp : Nat) (c : Cursor) : Px :=
+  ((((f.redMax * c.backR / 0xffff) <<< f.redShift) ||| ((f.greenMax * c.backG / 0xffff) <<< f.greenShift)
+    ||| ((f.blueMax * c.backB / 0xffff) <<< f.blueShift)) % 2 ^ 32) % 2 ^ (8 * bpp)
+
+/-- does rich pixel `p` become a set bit of the X bitmap?  interpolating: grey level ≥ 128;
+otherwise: the pixel differs from the background colour -/
+def xBitSet (f : Format) (bpp : Nat) (c : Cursor) (p : Px) : Bool :=
+  if xInterp bpp c then
+    let r := 255 * chan f.redMax f.redShift p / f.redMax
+    let g := 255 * chan f.greenMax f.greenShift p / f.greenMax
+    let b := 255 * chan f.blueMax f.blueShift p / f.blueMax
+    (r + g + b) / 3 ≥ 128
+  else p != xBackground f bpp c
+
+/-- one pixel `(i,j)` of rfbMakeXCursorFromRichCursor's loop -/
+def xFromRichStep (f : Format) (bpp : Nat) (c : Cursor) (rich : Array Px) (j i : Nat) (src : Array UInt8) :
+    Option (Array UInt8) :=
+  (rich[j * c.w + i]?).bind fun p =>
+    if xBitSet f bpp c p then orByte src (j * rowBytes c.w + i / 8) (UInt8.ofNat (0x80 >>> (i % 8))) else some src
 
 /-- rfbMakeXCursorFromRichCursor: new `source` bitmap, and the (possibly rewritten) foreground -/
 def makeXFromRich (f : Format) (bpp : Nat) (c : Cursor) : Option Cursor :=
   match c.rich with
   | none => none
   | some rich =>
-    let interp := c.backR == 0 && c.backG == 0 && c.backB == 0 && c.foreR == 0 && c.foreG == 0 && c.foreB == 0
-      && (bpp == 1 || bpp == 2 || bpp == 4)
-    let c1 := if interp then { c with foreR := 0xffff, foreG := 0xffff, foreB := 0xffff } else c
-    let background : Nat :=
-      ((((f.redMax * c.backR / 0xffff) <<< f.redShift) ||| ((f.greenMax * c.backG / 0xffff) <<< f.greenShift)
-        ||| ((f.blueMax * c.backB / 0xffff) <<< f.blueShift)) % 2 ^ 32) % 2 ^ (8 * bpp)
-    let rb := rowBytes c.w
-    (forM? c.h (fun j src =>
-      forM? c.w (fun i src => do
-        let p ← rich[j * c.w + i]?
-        let set : Bool :=
-          if interp then
-            let r := 255 * chan f.redMax f.redShift p / f.redMax
-            let g := 255 * chan f.greenMax f.greenShift p / f.greenMax
-            let b := 255 * chan f.blueMax f.blueShift p / f.blueMax
-            (r + g + b) / 3 ≥ 128
-          else p != background
-        if set then orByte src (j * rb + i / 8) (UInt8.ofNat (0x80 >>> (i % 8))) else some src) src)
-      (Array.replicate (rb * c.h) 0)).map fun src => { c1 with source := some src }
+    let c1 := if xInterp bpp c then { c with foreR := 0xffff, foreG := 0xffff, foreB := 0xffff } else c
+    (forM? c.h (fun j src => forM? c.w (fun i src => xFromRichStep f bpp c rich j i src) src)
+      (Array.replicate (rowBytes c.w * c.h) 0)).map fun src => { c1 with source := some src }
 
 /-- the alpha-blending arithmetic of rfbShowCursor for one pixel (`amax = 255`) -/
 def blend (f : Format) (bpp : Nat) (premult : Bool) (dval sval asrc : Nat) : Px :=
@@ -261,6 +283,17 @@ def blend (f : Format) (bpp : Nat) (premult : Bool) (dval sval asrc : Nat) : Px 
   let gdst := gsrc + (255 - asrc) * gdst / 255
   let bdst := bsrc + (255 - asrc) * bdst / 255
   (((rdst <<< f.redShift) ||| (gdst <<< f.greenShift) ||| (bdst <<< f.blueShift)) % 2 ^ 32) % 2 ^ (8 * bpp)
+
+/-- the library's built-in default cursor (`myCursor` of main.c; regenerated by the T0 extractor
+tools/consts/c15.py), in effect until the application calls rfbSetCursor -/
+def defaultCursor : Cursor :=
+  let col (l : List Nat) : Nat × Nat × Nat := match l with | [r, g, b] => (r, g, b) | _ => (0, 0, 0)
+  let f := col defCursorFore
+  let b := col defCursorBack
+  { w := defCursorW, h := defCursorH, xhot := defCursorXhot, yhot := defCursorYhot,
+    mask := (defCursorMask.map UInt8.ofNat).toArray, source := some (defCursorSource.map UInt8.ofNat).toArray,
+    rich := none, alpha := none, premult := false,
+    foreR := f.1, foreG := f.2.1, foreB := f.2.2, backR := b.1, backG := b.2.1, backB := b.2.2 }
 
 /-! ### show / hide -/
 
@@ -431,17 +464,26 @@ def shapePayload (w : Wire) (useRich : Bool) (c : Cursor) : Option (List UInt8) 
          UInt8.ofNat (c.backR / 256), UInt8.ofNat (c.backG / 256), UInt8.ofNat (c.backB / 256)]
         ++ sb.toList ++ mk.toList
 
-/-- does the cursor rectangle fit the update buffer right after the FramebufferUpdate header?
-(otherwise the code flushes and, if it still does not fit, takes `return FALSE; /* FIXME */`) -/
-def shapeFits (w : Wire) (useRich : Bool) (c : Cursor) : Bool :=
+/-- `sz_rfbFramebufferUpdateRectHeader + sz_rfbXCursorColors + maskBytes + dataBytes` -/
+def shapeBytes (w : Wire) (useRich : Bool) (c : Cursor) : Nat :=
   let maskBytes := rowBytes c.w * c.h
   let dataBytes := if useRich then c.w * c.h * w.bpp else maskBytes
-  sz_rfbFramebufferUpdateMsg + sz_rfbFramebufferUpdateRectHeader + sz_rfbXCursorColors
-    + maskBytes + dataBytes ≤ UPDATE_BUF_SIZE
+  sz_rfbFramebufferUpdateRectHeader + sz_rfbXCursorColors + maskBytes + dataBytes
+
+/-- the rule of rfbSendCursorShape (since f43cbce): a cursor whose rectangle does not fit the
+(empty) update buffer cannot be sent in one piece and is replaced by the empty cursor -/
+def shapeFits (w : Wire) (useRich : Bool) (c : Cursor) : Bool :=
+  shapeBytes w useRich c ≤ UPDATE_BUF_SIZE
+
+/-- is the update buffer flushed before the cursor rectangle is assembled?  (`ublen` is
+`sz_rfbFramebufferUpdateMsg` when rfbSendCursorShape runs: it is the first rectangle.)  The flush is
+one more `write`; the bytes on the wire are the same. -/
+def shapeFlushesFirst (w : Wire) (useRich : Bool) (c : Cursor) : Bool :=
+  sz_rfbFramebufferUpdateMsg + shapeBytes w useRich c > UPDATE_BUF_SIZE
 
 /-- rfbSendCursorShape on the screen's cursor: the (possibly converted) cursor and the bytes
-appended to the update buffer.  `none`: a conversion failed (NULL bitmap) or the cursor does not
-fit (`shapeFits`, excluded: see `shape_fits`). -/
+appended to the update buffer.  `none`: a conversion failed (NULL bitmap).  A 1×1 cursor with
+empty mask and a cursor that does not fit (`shapeFits`) are sent as the empty cursor. -/
 def shapeCore (v : Variant) (f : Format) (bpp : Nat) (w : Wire) (cur : Option Cursor) (useRich : Bool) :
     Option (Option Cursor × List UInt8) :=
   let enc := if useRich then encRichCursor else encXCursor
@@ -450,8 +492,7 @@ def shapeCore (v : Variant) (f : Format) (bpp : Nat) (w : Wire) (cur : Option Cu
   | some c0 =>
     (convertFor v f bpp useRich c0).bind fun c =>
     (isEmptyCursor c).bind fun isEmpty =>
-      if isEmpty then some (some c, rectHeader 0 0 0 0 enc)
-      else if !shapeFits w useRich c then none
+      if isEmpty || !shapeFits w useRich c then some (some c, rectHeader 0 0 0 0 enc)
       else (shapePayload w useRich c).map fun pl =>
         (some c, rectHeader c.xhot c.yhot c.w c.h enc ++ pl)
 
